@@ -105,7 +105,7 @@ class C13(Prop):
             if "str" in ln:
                 gens.append({"kind": "ser", "field": ln["str"], "where": ["name", "script", "head", "source", "meta"][i % 5], "indent": [None, 2, 0, 4][i % 4]})
             else:
-                gens.append({"kind": "doc", "segs": ln["segs"], "seed": i})
+                gens.append({"kind": "doc", "segs": ln["segs"], "seed": i, "twice": i % 3 == 0})
         return gens
 
     def gens_random(self, tier, rnd):
@@ -123,7 +123,7 @@ class C13(Prop):
                 else:
                     segs.append({"k": "ph", "id": 0, "dep": 0, "var": 0})
             gens.append({"kind": "doc", "segs": segs, "seed": n, "prefix": rnd.choice(["lib", "lib", None, "a/b"]),
-                         "inclver": rnd.random() < 0.5})
+                         "inclver": rnd.random() < 0.5, "twice": rnd.random() < 0.4})
         for n in range(100 if tier == "quick" else 2000):
             gens.append({"kind": "mode", "seed": n})
         return gens
@@ -179,6 +179,9 @@ class C13(Prop):
             tdoc = H.HTMLTextDocument(text, deps_replace_pattern=PH)
             prefix, inclver = g.get("prefix", "lib"), g.get("inclver", True)
             try:
+                if g.get("twice"):
+                    # the same document object rendered before, with other settings: render() keeps no state
+                    tdoc.render(lib_prefix="earlier", include_version=not inclver)
                 res = tdoc.render(lib_prefix=prefix, include_version=inclver)
             except Exception:  # noqa: whatever the dependencies contain, rendering must not fail
                 return {"k": "doc", "segs": g["segs"], "deps": [-1], "rest": [], "rendered": [], "headEmpty": False,
